@@ -8,12 +8,16 @@
   not yet published / taken but not yet discounted), the ownership invariant (every order id is in
   exactly one place: the map or the hands of one thread), and their consequence at quiescence: the
   aggregates equal the sums over the resting orders, exactly, with no wrap.
-  `C03_partial`: the per-order ledger "supplied = executed + returned + resting + discarded" is NOT
-  proved as a theorem over the small-step model (it needs a per-id refinement of the credits); it is
-  judged on every real execution by `C03.idOk` and follows sequentially from C02.
+  The per-order ledger (`C03_ledger`, `C03_ledger_prefix`): for every order id, at every point of
+  every schedule, what rests + what threads hold + what was executed + what cancels handed back +
+  discarded hidden quantity (+ amended down) = what was there + what adds supplied (+ amended up);
+  at quiescence nobody holds anything. Events are counted where they happen in the model (a
+  transaction is created, a cancel returns, the leftover hidden quantity is dropped); on real
+  executions the same ledger is judged from the calls' return values by `C03.idOk`.
   Not exhibited by the model: weak-memory reorderings, DashMap / SegQueue internals.
 -/
 import PLV.Lemmas.ConcInit
+import PLV.Lemmas.ConcLedger
 
 namespace PLV.C03
 open PLV PLV.Conc
@@ -55,6 +59,50 @@ theorem C03_credits {l : Level} (hl : l.Inv) (g : Nat) {progs : List (List COp)}
     c.sh.cnt = c.sh.map.length + sumT (fun t => cC t.pc) c.ts := by
   obtain ⟨e1, e2, e3, _⟩ := ((init_inv hl g ha).run sched).exact hQ hN
   exact ⟨e1, e2, e3⟩
+
+/-- quantity the programs' adds will supply under id `x` -/
+def suppliedBy (x : Id) (progs : List (List COp)) : Nat :=
+  sumT (thand x) (progs.map (fun ops => ({ todo := ops } : Thread)))
+
+/-- **the per-order ledger, for every schedule**: once all threads have returned, for every order id
+    `x`: what rests under `x` + what was executed against `x` + what cancels handed back + the hidden
+    quantity discarded when a non-replenishing reserve order was exhausted (+ what amends took away)
+    = what the level held under `x` at the start + what the adds supplied (+ what amends added).
+    Nothing is executed twice, handed to two cancellers, or lost. -/
+theorem C03_ledger {l : Level} (hl : l.Inv) (g : Nat) {progs : List (List COp)} (ha : ProgAdm l progs)
+    (sched : List Nat) (x : Id) (hd : allDone (Conc.run (Cfg.init l g progs) sched) = true) :
+    let c := Conc.run (Cfg.init l g progs) sched
+    let E := runLev x (Cfg.init l g progs) sched
+    tot x c.sh.map + E.exec + E.ret + E.disc + E.down = tot x l.map + suppliedBy x progs + E.up := by
+  intro c E
+  have hc0 : CInv (Cfg.init l g progs) := (init_inv hl g ha).inv
+  have h0 : LInv x (tot x l.map + suppliedBy x progs) (Cfg.init l g progs) {} := by
+    simp [LInv, Cfg.init, Shared.ofLevel, suppliedBy]
+  have h := h0.run sched hc0
+  have hz := done_hand x hd
+  unfold LInv at h
+  simp only [LEv.plus] at h
+  simp only [Nat.zero_add] at h
+  show tot x c.sh.map + E.exec + E.ret + E.disc + E.down = _
+  have e : sumT (thand x) c.ts = 0 := hz
+  simp only [c, E] at *
+  omega
+
+/-- at every point of every schedule (not only at quiescence): the same ledger with what the threads
+    currently hold of `x` outside the map, or have yet to bring -/
+theorem C03_ledger_prefix {l : Level} (hl : l.Inv) (g : Nat) {progs : List (List COp)} (ha : ProgAdm l progs)
+    (sched : List Nat) (x : Id) :
+    let c := Conc.run (Cfg.init l g progs) sched
+    let E := runLev x (Cfg.init l g progs) sched
+    tot x c.sh.map + sumT (thand x) c.ts + E.exec + E.ret + E.disc + E.down = tot x l.map + suppliedBy x progs + E.up := by
+  intro c E
+  have hc0 : CInv (Cfg.init l g progs) := (init_inv hl g ha).inv
+  have h0 : LInv x (tot x l.map + suppliedBy x progs) (Cfg.init l g progs) {} := by
+    simp [LInv, Cfg.init, Shared.ofLevel, suppliedBy]
+  have h := h0.run sched hc0
+  unfold LInv at h
+  simp only [LEv.plus, Nat.zero_add] at h
+  exact h
 
 /-! non-vacuity: an admissible two-thread program on a one-order level -/
 example : ProgAdm ((Level.new 100).addOrder ⟨⟨false, 1⟩, 100, 10, .sell, 1, .gtc, .iceberg 5⟩)
